@@ -444,7 +444,8 @@ class Process(metaclass=abc.ABCMeta):
         Args:
             override: The schema override to add.
         """
-        deep_merge(self._schema_override, override)
+        # (on a copy: the override stays its owner's, e.g. a composer's)
+        deep_merge(self._schema_override, deep_copy_internal(override))
 
     def ports(self) -> Dict[str, List[str]]:
         """Get ports and each port's variables.
